@@ -343,17 +343,23 @@ def c10(run):
 @check("C13")
 def c13(run):
     fam = "c13one" if run.tier == "quick" else "c13two"
-    st = run.tlc("MC_Text", text_cfg(fam), name="MC_Text_" + fam, timeout=3000, workers=1)
+    st, st2 = run.tlc_many([dict(module="MC_Text", cfg=text_cfg(fam), name="MC_Text_" + fam, timeout=3000, workers=1),
+                            dict(module="MC_Tree", cfg=text_cfg("c13tree"), name="MC_Tree_c13tree", timeout=3000, workers=1)])
     path, n = run.records(st)
     run.replay("render", path, name="render-" + fam)
     run.add_samples(path, 2)
+    path2, n2 = run.records(st2)
+    run.replay("tree", path2, name="tree-c13")
+    run.add_samples(path2, 1)
     return vp.finish(run, "model_checking",
                      "13 single-line faults (undefined identifier, mistyped operand, unknown function / property, "
                      "division / modulo by zero, illegal character, unexpected tokens, type change, non-array) placed at "
                      "top level, in @if, @else, @each and @for bodies, after every sequence (up to the bound) of 14 "
                      "multi-line preambles (text runs, strings and comments containing newlines, CRLF, multi-line {{ }}, "
                      "blocks, non-ASCII); the expected line is known by construction; the harness requires an error "
-                     "on exactly that line", exhaustive=True)
+                     "on exactly that line; template trees with a parse fault in the layout / the page / a component, an "
+                     "undefined insert, an unknown component (load time: absolute path of the file containing the "
+                     "construct and its line) and run-time faults in the page (fail.Error.Filepath / Line)", exhaustive=True)
 
 
 @check("C11")
